@@ -27,7 +27,7 @@ def targets(props):
         j = json.load(open(ev))
         pid = j['property_id']
         for f in j['coverage'].get('functions_under_contract', []):
-            if 'lines' not in f or not f.get('file', '').endswith('.py'):
+            if not f.get('lines') or not (f.get('file') or '').endswith('.py'):
                 continue
             key = (f['file'], f['qualname'], tuple(f['lines']))
             funcs.setdefault(key, set()).add(pid)
